@@ -55,7 +55,7 @@ func checkPlanFor(prop, tier string) *checkPlan {
 				{Label: "hist+transport-faults", Engine: "hist", Prop: "C11", Runs: n(400, 20000), Share: 3},
 				{Label: "hist-fault-free", Engine: "hist", Prop: "C11", Mode: "nofault", Runs: n(120, 6000), FaultFree: true},
 				{Label: "torn-file-sweep", Engine: "hist", Prop: "C11", Mode: "tornsweep:%d/32", Runs: n(32, 256)},
-				{Label: "fault-probes", Engine: "fault", Prop: "C11", Runs: n(480, 12000)},
+				{Label: "fault-probes", Engine: "fault", Prop: "C11", Runs: n(960, 12000)},
 			},
 			Rule:       "one run = one seeded history of LoadConfig (string / fault-injecting reader / real file: chunking, (n>0,EOF), (n>0,err), error after k bytes, torn at k, missing, directory) / SetConfiguration / Filter / Lint ops over 2-5 configurations of classes empty, neutral, example, option-setting, ill-typed, odd; every lint result is compared with the fresh-process reference under the configuration the model says the registry holds, unnamed lints with the no-configuration reference, the ill-typed lint must be fatal with a configuration message and no recovered-panic marker, and no panic may reach the caller on the certificate, CRL and OCSP paths. distinct_nontrivial as for C05.",
 			Assumption: append(histAssume, "only the clearly inapplicable shapes (scalar, array, array of tables, wrong field type) are judged 'must be fatal'; odd shapes are judged for no-panic and locality only"),
